@@ -762,6 +762,7 @@ class Source:
         self.consts = {}       # name -> (type, expr)
         self.fns = {}          # (impl_type, trait, name) -> dict(params, ret, body_pos, line)
         self.assoc = {}        # (impl_type, assoc type name) -> type
+        self.aliases = {}      # top-level `type X = T;`
         self.scan(0, len(self.toks) - 1, None, None, True)
 
     def scan(self, i, end, impl_ty, trait, top):
@@ -948,6 +949,12 @@ class Source:
                     self.assoc[(impl_ty, t[i + 1][1])] = p_.ty()
                 except Unsupported:
                     pass
+            if tk[0] == "id" and tk[1] == "type" and impl_ty is None and t[i + 1][0] == "id" and t[i + 2][1] == "=":
+                p_ = Parser(t, i + 3)
+                try:
+                    self.aliases[t[i + 1][1]] = p_.ty()
+                except Unsupported:
+                    pass
             if tk[0] == "id" and tk[1] in ("use", "type", "extern"):
                 while t[i][1] != ";" and t[i][1] != "{":
                     i += 1
@@ -1042,16 +1049,31 @@ class Ctx:
         self.default_int = cfg.get("default_int", "u32")
         self.aux_names = []
 
+    def norm(self, ty):
+        """resolve top-level type aliases"""
+        if ty is None:
+            return None
+        if ty[0] == "tup":
+            return ("tup", [self.norm(x) for x in ty[1]])
+        for sr in self.sources:
+            if ty[1] in sr.aliases and not ty[2]:
+                return self.norm(sr.aliases[ty[1]])
+        return ("ty", ty[1], [self.norm(x) for x in ty[2]])
+
     def struct(self, name):
         for s in self.sources:
             if name in s.structs:
-                return s.structs[name]
+                if not any(sr.aliases for sr in self.sources):
+                    return s.structs[name]
+                return [(f, self.norm(t)) for f, t in s.structs[name]]
         return None
 
     def enum(self, name):
         for s in self.sources:
             if name in s.enums:
-                return s.enums[name]
+                if not any(sr.aliases for sr in self.sources):
+                    return s.enums[name]
+                return [(v, [self.norm(t) for t in tys]) for v, tys in s.enums[name]]
         return None
 
     def const(self, name):
@@ -1094,6 +1116,9 @@ class Ctx:
             return "unit"        # opaque: a function that touches a value of this type is outside the subset
         if self.struct(name) is not None or self.enum(name) is not None:
             return name
+        for sr in self.sources:
+            if name in sr.aliases and not args:
+                return self.coq_ty(sr.aliases[name])
         raise Unsupported("type " + name)
 
     def resolve_self(self, ty, impl):
@@ -1103,6 +1128,9 @@ class Ctx:
             return ("tup", [self.resolve_self(x, impl) for x in ty[1]])
         if ty[1] == "Self":
             return T(impl)
+        for sr in self.sources:
+            if ty[1] in sr.aliases and not ty[2]:
+                return self.resolve_self(sr.aliases[ty[1]], impl)
         for sr in self.sources:
             if (impl, ty[1]) in sr.assoc and not ty[2]:
                 return self.resolve_self(sr.assoc[(impl, ty[1])], impl)
@@ -1437,6 +1465,8 @@ class FnTranslator:
                     return T(p[0] if p[0] != "Self" else self.impl)
                 if p[-2:] == ["mem", "take"] and len(e[2]) == 1:
                     return self.ty_of(e[2][0], env)
+                if len(p) == 2 and p[0] in ("Rc", "Box") and p[1] == "new" and len(e[2]) == 1:
+                    return self.ty_of(e[2][0], env)
                 info = self.lookup_fn(p)
                 if info:
                     return info["full_ret"]
@@ -1487,7 +1517,7 @@ class FnTranslator:
                         return T("usize")
                     if m == "is_empty":
                         return T("bool")
-                    if m in ("iter", "to_vec", "clone", "collect", "into_boxed_slice"):
+                    if m in ("iter", "to_vec", "clone", "collect", "into_boxed_slice", "as_ref", "as_slice"):
                         return rt
                     if m in ("max", "min") and not e[3]:
                         return T("Option", rt[2][0])
@@ -1780,6 +1810,8 @@ class FnTranslator:
                 return "(%s.%s %s %s)" % ("Nat" if is_nat(t) else "N", p[-1], args[0], args[1])
             if len(p) == 2 and p[1] == "default" and not args and "Default" in self.c.derives(name):
                 return "%s_default" % name
+            if len(p) == 2 and p[0] in ("Rc", "Box") and p[1] == "new" and len(args) == 1:
+                return args[0]
             if len(p) == 2 and p == ["Vec", "new"]:
                 return "[]"
             if len(p) == 2 and p == ["Vec", "with_capacity"] and len(args) == 1:
@@ -1794,7 +1826,7 @@ class FnTranslator:
             rt = self.ty_of(e[1], env)
             if m in MUTATING_METHODS or m == "into":
                 return None
-            if m in ("iter", "clone", "to_vec", "copied", "cloned", "into_boxed_slice") and not e[3] \
+            if m in ("iter", "clone", "to_vec", "copied", "cloned", "into_boxed_slice", "as_ref", "as_slice") and not e[3] \
                     and not (rt and rt[0] == "ty" and (rt[1], m) in self.c.fn_info):
                 return self.pure(e[1], env)
             if m in ("max", "min") and not e[3] and is_list(rt) and is_int(rt[2][0]) and not is_nat(rt[2][0]):
@@ -2851,9 +2883,37 @@ def default_term(ctx, t):
     raise Unsupported("Default at type %s" % (t,))
 
 
+def emit_mutual(ctx, group):
+    """mutually recursive structs / enums (e.g. a term type and its node type): one Inductive ... with ...;
+    a struct is a one-constructor inductive whose projections are defined by hand.  No derived equality."""
+    decls, projs = [], []
+    for name in group:
+        st = ctx.struct(name)
+        if st is not None:
+            decls.append("%s := %s_mk %s" % (name, name, " ".join("(_ : %s)" % ctx.coq_ty(t) for _f, t in st)))
+            n = len(st)
+            for i, (f, t) in enumerate(st):
+                pat = " ".join("x_" if j == i else "_" for j in range(n))
+                projs.append("Definition %s_%s (r_ : %s) : %s := match r_ with %s_mk %s => x_ end."
+                             % (name, fld(f), name, ctx.coq_ty(t), name, pat))
+            continue
+        en = ctx.enum(name)
+        if en is None:
+            raise Unsupported("type %s not found" % name)
+        decls.append("%s := %s" % (name, " ".join("| %s_%s%s" % (name, v, "".join(" (_ : %s)" % ctx.coq_ty(t) for t in tys)) for v, tys in en)))
+    return ["Inductive " + "\nwith ".join(decls) + "."] + projs
+
+
 def emit_types(ctx, names):
     out = []
+    done_mutual = set()
     for name in names:
+        grp = next((g for g in ctx.cfg.get("mutual", []) if name in g), None)
+        if grp is not None:
+            if name not in done_mutual:
+                out += emit_mutual(ctx, grp)
+                done_mutual |= set(grp)
+            continue
         st = ctx.struct(name)
         if st is not None:
             out.append("Record %s := %s_mk { %s }." % (name, name, "; ".join(
@@ -3009,6 +3069,19 @@ MODULES = {
                      + [("StateMapping", None, f) for f in ("from_array", "num_new_states", "is_class_rep")]
                      + [("EdgeIterator", "Iterator", "next"), ("FinalStateIterator", "Iterator", "next")],
     },
+    "RegexNodeGen": {
+        "files": ["regular_expressions.rs", "character_sets.rs", "loop_ranges.rs", "smt_strings.rs"],
+        "types": ["CharSet", "CharPartition", "LoopRange", "RE", "BaseRegLan"],
+        "mutual": [["RE", "BaseRegLan"]],
+        "consts": ["MAX_CHAR"],
+        "functions": [("CharSet", None, f) for f in ("is_singleton", "is_alphabet", "covers")]
+                     + [("LoopRange", None, f) for f in ("start", "is_point", "is_all")]
+                     + [("CharPartition", None, f) for f in ("len", "new", "from_set", "push", "get")]
+                     + [(None, None, "merge_partitions")]
+                     + [("BaseRegLan", None, f) for f in ("is_nullable", "is_atomic", "concat_or_atomic", "is_all_chars", "is_full",
+                                                          "is_singleton", "is_simple_pattern", "is_range", "match_char_set",
+                                                          "deriv_class")],
+    },
     "PartitionGen": {
         "files": ["character_sets.rs", "smt_strings.rs", "errors.rs"],
         "types": ["CharSet", "CoverResult", "ClassId", "Error", "CharPartition", "ClassIdIterator", "PickIterator"],
@@ -3027,7 +3100,7 @@ def translate_one(ctx, key, params, ret, body, coq, mutself):
     local_fns = {}
     for (_k, nname, nparams, nret, nbody) in extract_nested(body):
         ncoq = "%s_%s" % (coq, nname)
-        nt = FnTranslator(ctx, key[0], ncoq, nparams, nret, nbody, False, {})
+        nt = FnTranslator(ctx, key[0], ncoq, nparams, nret, nbody, False, dict(local_fns))    # earlier siblings are visible
         npure, nfuel, ntext = nt.translate()
         local_fns[nname] = {"coq": ncoq, "ret": nt.ret, "full_ret": nt.ret, "pure": npure, "fuel": nfuel,
                             "params": nt.params, "mutself": False}
@@ -3152,7 +3225,7 @@ def translate_module(name, repo):
     names = [ctx.fn_info[(k[0], keyname[k])]["coq"] for k in order]
     out.append("(* every generated definition, for `autounfold with rs2v` in the link proofs *)")
     out.append("Create HintDb rs2v.")
-    unf = names + ["M_" + n for n in names] + list(cfg["consts"]) + [t + "_eqb" for t in cfg["types"] if "PartialEq" in ctx.derives(t)] \
+    unf = names + ["M_" + n for n in names] + list(cfg["consts"]) + [t + "_eqb" for t in cfg["types"] if "PartialEq" in ctx.derives(t) and not any(t in g for g in cfg.get("mutual", []))] \
         + [t + "_default" for t in cfg["types"] if ctx.struct(t) is not None and "Default" in ctx.derives(t)] \
         + [n for n in ctx.aux_names if not re.search(r"_loop\d+$", n)]
     out.append("#[global] Hint Unfold %s : rs2v." % " ".join(unf))
